@@ -92,18 +92,19 @@ NOT_BUILT = "check not built yet (see DESIGN.md section 9 for the order of work)
 # clauses added after the third seeding round (DESIGN.md 10.2), appended to the level text
 ADDED = {
  'C02': " Also: the descriptor reader hands out the whole parsed dictionary (no projection that the rewrite would persist); the recovery cut is unconditional inside the handler.",
- 'C03': " Also: the recovery cut is unconditional inside the handler (shared with C09).",
+ 'C03': " Also: the recovery cut is unconditional inside the handler (shared with C09); append() reaches iterappend on every normal path (no shortcut around the validation).",
+ 'C01': " Also: an empty source of the chunk generator keeps dtype and trailing shape on both the Array and the sequence branch (shared with C15).",
  'C04': " Also: the empty-array substitute of the opener is built with the descriptor's dtype (byte order included), so appended items are cast to the stored type.",
  'C05': " Also: who-may-write the top-level descriptor (any other writer in raggedarray.py builds it from the target's sub-arrays).",
  'C06': " Also: the statement that reads the file binds the requested variable.",
  'C07': " Also: each sub-program binds the variable the composer indexes (i / v).",
- 'C09': " Also: the cut is on every path through the handler (no `if completed > 0` guard); append() offers its argument as one chunk.",
- 'C13': " Also: a trial serialisation whose failure is raised uses the writer's encoder (DDJSONEncoder).",
+ 'C09': " Also: the cut is on every path through the handler (no `if completed > 0` guard); append() offers its argument as one chunk and reaches iterappend on every normal path; the recovery commit counts the same rows as the success commit.",
+ 'C13': " Also: a trial serialisation whose failure is raised uses the writer's encoder (DDJSONEncoder); creators replace the metadata file (no MetaData.update merge into the file of an overwritten array).",
  'C15': " RaggedArray.copy is analysed in either form: delegation to asraggedarray, or direct Array.copy of both sub-arrays with metadata replaced (never merged).",
- 'C17': " Also: JSON / README writers rewrite in place (no removal before the write).",
- 'C18': " Also: no module-level container is filled with file content (no parse cache between the file and the validation).",
+ 'C17': " Also: JSON / README writers rewrite in place (no removal before the write); a public append of a sub-array counts as a length commit in the values-before-indices order rule.",
+ 'C18': " Also: no module-level container is filled with file content (no parse cache between the file and the validation), class-level containers included; the handle's dtype/shape/size come from the object the opener builds (or the reader rejects negative extents itself).",
  'C19': " Also: the refusal test of __setitem__ is the writeable flag of the map that is written to. Release-on-all-exits is decided by a leak-path analysis on the CFG when the with/finally shape is not found.",
- 'C20': " Also: the path used by every DataDir method is <directory>/<name as given> (no rewrite between guard and use); names are materialised before they are iterated twice.",
+ 'C20': " Also: the path used by every DataDir method is <directory>/<name as given> (no rewrite between guard and use); names are materialised before they are iterated twice; no mutation is driven by a directory listing / glob.",
  'C11': " Release-on-all-exits is decided by a leak-path analysis on the CFG when the with/finally shape is not found.",
  'C12': " Release-on-all-exits is decided by a leak-path analysis on the CFG when the with/finally shape is not found.",
 }
